@@ -1,0 +1,16 @@
+// SPDX-FileCopyrightText: 2023 The Pion community <https://pion.ly>
+// SPDX-License-Identifier: MIT
+
+//go:build verif
+
+package rtp
+
+// VerifSeqHook, when set, is called inside the sequencer's critical section after the
+// state change and before the lock is released (verification builds only).
+var VerifSeqHook func(value uint16, rollOverCount uint64) //nolint:gochecknoglobals
+
+func verifSeqHook(value uint16, rollOverCount uint64) {
+	if h := VerifSeqHook; h != nil {
+		h(value, rollOverCount)
+	}
+}
